@@ -159,4 +159,44 @@ def scn_container(mon, seed):
         return
 
 
-SCENARIOS = {"status": scn_status, "pool": scn_pool, "executor": scn_executor, "killer": scn_killer, "container": scn_container}
+def scn_twins(mon, seed):
+    """several identical containers started together: simultaneous completions, simultaneous suspensions that
+    finish in the same tick, then re-assignment of the work that came back"""
+    ns = mon.ns
+    rng = random.Random(seed)
+    Assignment, Suspend, ResourcePool, Segment, Pipeline, Priority = (ns[k] for k in ("Assignment", "Suspend", "ResourcePool", "Segment", "Pipeline", "Priority"))
+    tps = rng.choice([1, 2, 10])
+    n = rng.choice([2, 3])
+    ram = rng.choice([10, 20, 40])
+    pool = ResourcePool(0, 8, 200, tps, allow_memory_overcommit=rng.random() < 0.3)
+    read, cpu = rng.choice([0, 20, 40]), rng.choice([0.5, 1, 2])
+    pipes = []
+    for i in range(n):
+        p = Pipeline(f"t{seed}_{i}", Priority.BATCH_PIPELINE)
+        prev = None
+        for _ in range(rng.choice([2, 3])):
+            op = p.new_operator([prev] if prev else None)
+            op.add_segment(Segment(baseline_cpu_seconds=cpu, cpu_scaling="const", memory_gb=rng.choice([None, 5]), storage_read_gb=read))
+            prev = op
+        p.runtime_status()
+        pipes.append(p)
+    try:
+        asg = [Assignment(ready_ops(ns, p, packed=True), 1, ram, p.priority, 0, p.pipeline_id) for p in pipes]
+        pool.run_one_tick([], asg)
+        for t in range(80):
+            sus = [Suspend(c.container_id, 0) for c in pool.active_containers if c.can_suspend_container()] if rng.random() < 0.7 else []
+            asg = []
+            if t > 3 and rng.random() < 0.5:
+                for p in pipes:
+                    ops = ready_ops(ns, p, packed=True)
+                    if ops and pool.avail_cpu_pool - len(asg) >= 1 and pool.avail_ram_pool - ram * len(asg) >= ram:
+                        asg.append(Assignment(ops, 1, ram, p.priority, 0, p.pipeline_id))
+            pool.run_one_tick(sus, asg)
+            if mon.violations:
+                return
+    except (AssertionError, AttributeError):
+        return
+
+
+SCENARIOS = {"status": scn_status, "pool": scn_pool, "executor": scn_executor, "killer": scn_killer, "container": scn_container,
+             "twins": scn_twins}
